@@ -55,7 +55,7 @@ func VerifHarness_C20_step() {
 	}
 	stash0 := len(rs0.messageStash)
 
-	ev := verifConc(ndInt("event", 0, 8))
+	ev := verifConc(ndInt("event", 0, 9))
 	var reqID []byte
 	viaIncoming := false
 	switch ev {
@@ -102,6 +102,20 @@ func VerifHarness_C20_step() {
 	case 7:
 		verifCase("inbound-application-message-in-sequence")
 		r.s.fixMsgIn(r.s, r.appMessage(T))
+	case 9:
+		verifCase("inbound-damaged-frame-through-Incoming")
+		// bytes that do not parse (BodyLength disagrees) are still bytes from a living peer
+		viaIncoming = true
+		m := r.inbound("0", T)
+		b := m.build()
+		bad := append([]byte{}, b...)
+		for i := range bad {
+			if i+1 < len(bad) && bad[i] == '9' && bad[i+1] == '=' && (i == 0 || bad[i-1] == 1) {
+				bad[i+2] = '9' // first digit of the BodyLength value
+				break
+			}
+		}
+		r.s.Incoming(r.s, fixIn{bytes: bytes.NewBuffer(bad), receiveTime: time.Now()})
 	case 8:
 		verifCase("inbound-resendrequest")
 		m := r.inbound("2", T)
@@ -174,7 +188,11 @@ func VerifHarness_C20_step() {
 			verifAssert(nRR == 1, "gap-requests-resend")
 		}
 	}
-	if ev >= 5 {
+	if ev == 9 {
+		verifAssert(len(pt) == 1 && pt[0] == c20PeerInterval(hb), "incoming-rearms-peer-timer-once")
+		verifAssert(r.st.NextTargetMsgSeqNum() == T && len(ws) == 0, "damaged-frame-otherwise-ignored")
+	}
+	if ev >= 5 && ev <= 8 {
 		verifAssert(kind1 != stPendingInSession && kind1 != stPendingResend, "inbound-message-cancels-pending-disconnect")
 		if ev == 5 {
 			verifAssert(r.st.NextTargetMsgSeqNum() == T && len(ws) == 0, "duplicate-ignored")
